@@ -17,7 +17,7 @@ def replaceStep (names : List (Bytes × Nat)) (bytes : Bytes) (re : Nat) (atEnd 
     else
       let dst1 := st.dst ++ slice bytes st.lastMatch m.s
       let exp := interpolate (envOf bytes names c) tmpl
-      ({ lastMatch := m.e, dst := dst1 ++ exp,
+      ({ lastMatch := min m.e re, dst := dst1 ++ exp,
          spans := st.spans ++ [⟨dst1.length, dst1.length + exp.length⟩] }, true)
 
 theorem replace_unfold (capsAt : Nat → Option Caps) (names : List (Bytes × Nat))
@@ -33,16 +33,20 @@ def keep (re : Nat) (atEnd : Bool) (c : Caps) : Bool :=
   decide ((sp c).s < re) || (atEnd && (sp c).s == re)
 
 theorem fold_spec (names : List (Bytes × Nat)) (bytes : Bytes) (re to : Nat) (atEnd : Bool) (tmpl : Bytes) :
-    ∀ (ms : List Caps) (st : RState),
+    ∀ (ms : List Caps) (_hms : ∀ c ∈ ms, (sp c).e ≤ re) (st : RState),
       (foldUntil (replaceStep names bytes re atEnd tmpl) st ms).dst ++
         slice bytes (foldUntil (replaceStep names bytes re atEnd tmpl) st ms).lastMatch to =
       st.dst ++ replaceAllSpec bytes (fun c => interpolate (envOf bytes names c) tmpl)
         (ms.takeWhile (keep re atEnd)) st.lastMatch to := by
   intro ms
   induction ms with
-  | nil => intro st; simp [foldUntil, replaceAllSpec, slice]
+  | nil => intro _ st; simp [foldUntil, replaceAllSpec, slice]
   | cons c ms ih =>
-    intro st
+    intro hms st
+    have hce : (sp c).e ≤ re := hms c (by simp)
+    have hmin : min ((c.get 0).getD ⟨0, 0⟩).e re = ((c.get 0).getD ⟨0, 0⟩).e := by
+      simp only [sp] at hce; omega
+    have ih := ih (fun x hx => hms x (by simp [hx]))
     by_cases hk : keep re atEnd c = true
     · have hcond : beyondRange re atEnd (sp c).s = false := by
         unfold keep at hk
@@ -54,7 +58,7 @@ theorem fold_spec (names : List (Bytes × Nat)) (bytes : Bytes) (re to : Nat) (a
       rw [ih]
       unfold replaceStep
       simp only [sp] at hcond
-      simp [hcond, replaceAllSpec, slice, sp, List.append_assoc]
+      simp [hcond, hmin, replaceAllSpec, slice, sp, List.append_assoc]
     · have hcond : beyondRange re atEnd (sp c).s = true := by
         unfold keep at hk
         unfold beyondRange
@@ -67,7 +71,8 @@ theorem fold_spec (names : List (Bytes × Nat)) (bytes : Bytes) (re to : Nat) (a
 the range `[rs, re)` of `bytes` is the regex crate's replace-all over the matches the printer keeps
 (text between matches copied verbatim, each match replaced by the interpolated template). -/
 theorem replace_eq_spec (capsAt : Nat → Option Caps) (names : List (Bytes × Nat))
-    (bytes : Bytes) (rs re : Nat) (atEnd : Bool) (tmpl : Bytes) (hs : Sane capsAt bytes.length) :
+    (bytes : Bytes) (rs re : Nat) (atEnd : Bool) (tmpl : Bytes) (hs : Sane capsAt bytes.length)
+    (hre : bytes.length ≤ re) :
     (replaceWithCapturesInContext capsAt names bytes rs re atEnd tmpl).dst =
       replaceAllSpec bytes (fun c => interpolate (envOf bytes names c) tmpl)
         ((allMatches capsAt bytes.length rs).takeWhile (keep re atEnd))
@@ -77,7 +82,12 @@ theorem replace_eq_spec (capsAt : Nat → Option Caps) (names : List (Bytes × N
   rw [iterGo_eq_fold]
   have hc := collect_eq_allMatches hs rs
   rw [hc]
-  have := fold_spec names bytes re (min bytes.length re) atEnd tmpl (allMatches capsAt bytes.length rs) ⟨rs, [], []⟩
+  have hms : ∀ c ∈ allMatches capsAt bytes.length rs, (sp c).e ≤ re := by
+    intro c hc'
+    obtain ⟨p, hp⟩ := specIter_mem hc'
+    have := hs.bound p c hp
+    omega
+  have := fold_spec names bytes re (min bytes.length re) atEnd tmpl (allMatches capsAt bytes.length rs) hms ⟨rs, [], []⟩
   simpa using this
 
 /-! ### `trim_line_terminator` and `is_at_unterminated_end` -/
